@@ -14,8 +14,8 @@ package phase4
 //@       g.Layers[b].Nodes[k+1].X == g.Layers[b].Nodes[k].X + g.Layers[b].Nodes[k].W + params.NodeSpacing
 //@   ensures[width|C16] forall b int :: 0 <= b && b < len(g.Layers) ==> g.Layers[b].W == rowW(g.Layers[b], params.NodeSpacing)
 //@   ensures[height|C03,C04,C16] heightsOK(g) && bandHeightsNonNeg(g)
-//@   ensures[nonneg|C04,C16] xNonNeg(g)
-//@   ensures[sep|C04,C16,C12] sepOK(g, params.NodeSpacing)
+//@   ensures[nonneg|C04,C16,C09] xNonNeg(g)
+//@   ensures[sep|C04,C16,C12,C09] sepOK(g, params.NodeSpacing)
 //@   ensures[midpoints|C16] forall b int, c int :: 0 <= b && b < len(g.Layers) && 0 <= c && c < len(g.Layers)
 //@       && len(g.Layers[b].Nodes) > 0 && len(g.Layers[c].Nodes) > 0 ==>
 //@       g.Layers[b].Nodes[0].X + rowW(g.Layers[b], params.NodeSpacing) / 2.0 == g.Layers[c].Nodes[0].X + rowW(g.Layers[c], params.NodeSpacing) / 2.0
@@ -23,9 +23,9 @@ package phase4
 //@       (exists b int :: 0 <= b && b < len(g.Layers) && len(g.Layers[b].Nodes) > 0 && g.Layers[b].Nodes[0].X == 0.0)
 //@   loop range(g.Layers)#1 index a
 //@     invariant[|C16] forall b int :: 0 <= b && b < a ==> g.Layers[b].W == rowW(g.Layers[b], params.NodeSpacing) && g.Layers[b].W >= 0.0
-//@     invariant[|C04,C16] forall b int :: 0 <= b && b < a ==> maxW >= g.Layers[b].W
+//@     invariant[|C04,C16,C09] forall b int :: 0 <= b && b < a ==> maxW >= g.Layers[b].W
 //@     invariant[|C03,C04,C16] forall b int, k int :: 0 <= b && b < a && 0 <= k && k < len(g.Layers[b].Nodes) ==> g.Layers[b].H >= g.Layers[b].Nodes[k].H
-//@     invariant[|C04,C16] maxW >= 0.0
+//@     invariant[|C04,C16,C09] maxW >= 0.0
 //@     invariant[|C03,C04,C16] forall b int :: 0 <= b && b < a ==> g.Layers[b].H >= 0.0
 //@     invariant[|C16] maxW == 0.0 || (exists b int :: 0 <= b && b < a && g.Layers[b].W == maxW)
 //@   loop range(layer.Nodes)#1 index i
@@ -37,20 +37,20 @@ package phase4
 //@   loop range(g.Layers)#2 index c
 //@     invariant[|C16] forall b int, k int :: 0 <= b && b < c && 0 <= k && k < len(g.Layers[b].Nodes) ==>
 //@       g.Layers[b].Nodes[k].X == (maxW - g.Layers[b].W) / 2.0 + rowPre(g.Layers[b], k, params.NodeSpacing)
-//@     invariant[|C04,C16] forall b int, k int :: 0 <= b && b < c && 0 <= k && k < len(g.Layers[b].Nodes) ==> g.Layers[b].Nodes[k].X >= 0.0
-//@     invariant[|C04,C16,C12] forall b int, i int, j int :: 0 <= b && b < c && 0 <= i && i < j && j < len(g.Layers[b].Nodes) ==>
+//@     invariant[|C04,C16,C09] forall b int, k int :: 0 <= b && b < c && 0 <= k && k < len(g.Layers[b].Nodes) ==> g.Layers[b].Nodes[k].X >= 0.0
+//@     invariant[|C04,C16,C12,C09] forall b int, i int, j int :: 0 <= b && b < c && 0 <= i && i < j && j < len(g.Layers[b].Nodes) ==>
 //@       g.Layers[b].Nodes[i].X + g.Layers[b].Nodes[i].W + params.NodeSpacing <= g.Layers[b].Nodes[j].X
 //@   loop range(layer.Nodes)#2 index d
 //@     invariant[|C16] pos == (maxW - layer.W) / 2.0 + rowPre(layer, d, params.NodeSpacing)
-//@     invariant[|C04,C16] pos >= 0.0
+//@     invariant[|C04,C16,C09] pos >= 0.0
 //@     invariant[|C16] forall k int :: 0 <= k && k < d ==> layer.Nodes[k].X == (maxW - layer.W) / 2.0 + rowPre(layer, k, params.NodeSpacing)
-//@     invariant[|C04,C16] forall k int :: 0 <= k && k < d ==> layer.Nodes[k].X >= 0.0
+//@     invariant[|C04,C16,C09] forall k int :: 0 <= k && k < d ==> layer.Nodes[k].X >= 0.0
 //@     invariant[|C16] forall b int, k int :: 0 <= b && b < c && 0 <= k && k < len(g.Layers[b].Nodes) ==>
 //@       g.Layers[b].Nodes[k].X == (maxW - g.Layers[b].W) / 2.0 + rowPre(g.Layers[b], k, params.NodeSpacing)
-//@     invariant[|C04,C16] forall b int, k int :: 0 <= b && b < c && 0 <= k && k < len(g.Layers[b].Nodes) ==> g.Layers[b].Nodes[k].X >= 0.0
-//@     invariant[|C04,C16,C12] forall k int :: 0 <= k && k < d ==> layer.Nodes[k].X + layer.Nodes[k].W + params.NodeSpacing <= pos
-//@     invariant[|C04,C16,C12] forall i int, j int :: 0 <= i && i < j && j < d ==> layer.Nodes[i].X + layer.Nodes[i].W + params.NodeSpacing <= layer.Nodes[j].X
-//@     invariant[|C04,C16,C12] forall b int, i int, j int :: 0 <= b && b < c && 0 <= i && i < j && j < len(g.Layers[b].Nodes) ==>
+//@     invariant[|C04,C16,C09] forall b int, k int :: 0 <= b && b < c && 0 <= k && k < len(g.Layers[b].Nodes) ==> g.Layers[b].Nodes[k].X >= 0.0
+//@     invariant[|C04,C16,C12,C09] forall k int :: 0 <= k && k < d ==> layer.Nodes[k].X + layer.Nodes[k].W + params.NodeSpacing <= pos
+//@     invariant[|C04,C16,C12,C09] forall i int, j int :: 0 <= i && i < j && j < d ==> layer.Nodes[i].X + layer.Nodes[i].W + params.NodeSpacing <= layer.Nodes[j].X
+//@     invariant[|C04,C16,C12,C09] forall b int, i int, j int :: 0 <= b && b < c && 0 <= i && i < j && j < len(g.Layers[b].Nodes) ==>
 //@       g.Layers[b].Nodes[i].X + g.Layers[b].Nodes[i].W + params.NodeSpacing <= g.Layers[b].Nodes[j].X
 
 //@ func execPackRight
@@ -65,10 +65,10 @@ package phase4
 //@       && len(g.Layers[b].Nodes) > 0 && len(g.Layers[c].Nodes) > 0 ==>
 //@       g.Layers[b].Nodes[len(g.Layers[b].Nodes)-1].X + g.Layers[b].Nodes[len(g.Layers[b].Nodes)-1].W
 //@         == g.Layers[c].Nodes[len(g.Layers[c].Nodes)-1].X + g.Layers[c].Nodes[len(g.Layers[c].Nodes)-1].W
-//@   ensures[nonneg|C04,C16] xNonNeg(g)
+//@   ensures[nonneg|C04,C16,C09] xNonNeg(g)
 //@   ensures[leftmost|C16] (exists b int :: 0 <= b && b < len(g.Layers) && len(g.Layers[b].Nodes) > 0) ==>
 //@       (exists b int :: 0 <= b && b < len(g.Layers) && len(g.Layers[b].Nodes) > 0 && g.Layers[b].Nodes[0].X == 0.0)
-//@   ensures[sep|C04,C16,C12] sepOK(g, params.NodeSpacing)
+//@   ensures[sep|C04,C16,C12,C09] sepOK(g, params.NodeSpacing)
 //@   ensures[height|C03,C04,C16] heightsOK(g) && bandHeightsNonNeg(g)
 //@   loop range(g.Layers)#1 index a
 //@     invariant forall b int, k int :: 0 <= b && b < a && 0 <= k && k < len(g.Layers[b].Nodes) ==>
